@@ -3033,10 +3033,16 @@ def emit(ast: Program) -> str:
                 )
             )
 
-    # Normal loop body (preferred path)
-    loop_lines.extend(
+    # Normal loop body (preferred path).  The injected per-pass housekeeping at its
+    # head (button polls, LCD animation ticks) is emitted last: the ticks must also
+    # cover animations started inside the loop body or inside helper functions.
+    loop_nodes = list(loop_body or [])
+    housekeeping_nodes: List[object] = []
+    while loop_nodes and isinstance(loop_nodes[0], (ButtonPoll, LCDTick)):
+        housekeeping_nodes.append(loop_nodes.pop(0))
+    user_loop_lines = (
         _emit_block(
-            loop_body or [],
+            loop_nodes,
             led_pin,
             led_state,
             led_brightness,
@@ -3064,13 +3070,6 @@ def emit(ast: Program) -> str:
         )
     )
 
-    if lcd_state:
-        for name, vars in lcd_animations.items():
-            for var, _ in vars:
-                line = f"__redu_lcd_animation_state {var};"
-                if line not in globals_:
-                    globals_.append(line)
-
     function_sections: List[str] = []
     for fn in getattr(ast, "functions", []):
         params_src = ", ".join(f"{ptype} {name}" for name, ptype in fn.params)
@@ -3096,8 +3095,8 @@ def emit(ast: Program) -> str:
             {name: dict(info) for name, info in dc_motor_state.items()},
             dict(lcd_decls),
             {name: dict(info) for name, info in lcd_state.items()},
-            {name: [(var, kind) for var, kind in values] for name, values in lcd_animations.items()},
-            dict(lcd_animation_counter),
+            lcd_animations,
+            lcd_animation_counter,
             indent="  ",
             in_setup=False,
             emitted_pin_modes=set(),
@@ -3108,6 +3107,44 @@ def emit(ast: Program) -> str:
             function_sections.append("\n".join(body_lines))
             function_sections.append("\n")
         function_sections.append("}\n\n")
+
+    loop_lines.extend(
+        _emit_block(
+            housekeeping_nodes,
+            led_pin,
+            led_state,
+            led_brightness,
+            buzzer_pin,
+            buzzer_state,
+            buzzer_current,
+            buzzer_last,
+            rgb_led_pins,
+            rgb_led_state,
+            rgb_led_colors,
+            ultrasonic_decls,
+            potentiometer_decls,
+            button_decls,
+            servo_decls,
+            servo_state,
+            dc_motor_pins,
+            dc_motor_state,
+            lcd_decls,
+            lcd_state,
+            lcd_animations,
+            lcd_animation_counter,
+            in_setup=False,
+            emitted_pin_modes=pin_mode_emitted,
+            ultrasonic_pin_modes=ultrasonic_pin_modes,
+        )
+    )
+    loop_lines.extend(user_loop_lines)
+
+    if lcd_state:
+        for name, vars in lcd_animations.items():
+            for var, _ in vars:
+                line = f"__redu_lcd_animation_state {var};"
+                if line not in globals_:
+                    globals_.append(line)
 
     ultrasonic_sections: List[str] = []
     for name in sorted(ultrasonic_measurements):
